@@ -87,6 +87,25 @@ pub fn run(ctx: &Ctx) {
         let s = gen(i / nsizes);
         judge(&s, (i % nsizes) as usize, loc);
     }));
+    // history: the result for one field must not depend on the fields parsed before (scratch
+    // buffers, memoised validity): ALL ordered pairs over 600 (input, size) cases
+    {
+        let l2 = 4u32;
+        let fam2 = strings_over(&ZA, l2, "z");
+        let gen2 = &fam2.gen;
+        let ns = l2 as u64 + 3;
+        let total = fam2.size * ns;
+        let m: u64 = 600.min(total);
+        let stride = (total / m).max(1);
+        ctx.run_family(Family::new("c19.history", m * m, format!("ALL ordered pairs (a, b) over {} (byte string of length <= 4, size) cases spread evenly over that product (every {}th): a is parsed, then b is judged twice on the same thread", m, stride), move |i, loc| {
+            let (ia, ib) = ((i / m) * stride, (i % m) * stride);
+            let a = gen2(ia / ns);
+            let _ = catch(|| dlt_core::parse::dlt_zero_terminated_string(&a, (ia % ns) as usize).map(|(r, s)| (r.len(), s.to_string())));
+            let b = gen2(ib / ns);
+            judge(&b, (ib % ns) as usize, loc);
+            judge(&b, (ib % ns) as usize, loc);
+        }).distinct());
+    }
     // large sizes
     {
         let sizes = [255usize, 256, 4096, 65_534, 65_535];
